@@ -1,5 +1,6 @@
 import Cvise.Proofs.DriverSafe
 import Cvise.Proofs.DriverCacheWitness
+import Cvise.Proofs.DriverGate
 import Cvise.Gen.Const
 /-!
 # C01 — the reduced test cases are always an interesting set
@@ -51,5 +52,14 @@ theorem shipped_key_ok (cfg : Cfg) (h : cfg.jointKey = Gen.cacheKeyJoint) : KeyO
 /-- non-vacuity of `reduce_safe`: the same scenario with the joint key commits a tested pair -/
 example : (LRes.st (runPass (wCfg true) wWorld wDone wipe [0, 1] 10 0 { disk := [0, 0] })).disk = [1, 0] := witness_disk_joint
 example : KeyOK (wCfg true) := Or.inr rfl
+
+/-- … and at the return of a reduction started with `--start-with-pass`, with `skip_initial`, or with passes whose
+    external programs are missing (`D.reduceG`): skipping passes never leaves an untested set behind -/
+theorem reduce_gated_safe (cfg : Cfg) (hk : KeyOK cfg) (W : World C) (dn : Sched) (orderOf : List C → List Nat) (fuel : Nat)
+    (avail : PassI C σ → Bool) (skip : Bool) (first main last : List (PassI C σ)) (x : St C) (sw : Option Nat) (hc : x.cache = []) :
+    SafeDisk W x.disk (LRes.st (reduceG cfg W dn orderOf fuel avail skip first main last x sw).1).disk := by
+  have h0 : Inv cfg W x.disk x := ⟨Or.inl rfl, by intro _ key J k after hm; rw [hc] at hm; cases hm⟩
+  exact (reduceG_lift cfg W dn orderOf fuel avail (fun r => Inv cfg W x.disk (LRes.st r))
+    (fun P order fuel rid y h => runPass_inv cfg hk W dn P x.disk order fuel rid y h) skip first main last x sw h0).disk
 
 end Cvise.C01
